@@ -121,7 +121,9 @@ def streamBody (cfg : Cfg) (e : End) (hd : ReqHead) (s : Bytes) (c : Consume) :
     .ok ({ head := if isGetOrHead hd then hd else setContentLength hd 0, got := { bytes := [] }, streamed := false }, .resync s)
   else if hd.cl = -1 then
     let (got, st) := consumeChunked cfg e hd.trailer c (c.stopAfter + s.length + 2) { s := s } []
-    let after := match drainChunked cfg e (s.length + 2) st with
+    -- a failed `Read` is remembered (`readErr`): `ReleaseBodyStream` reports it and the connection closes
+    let after := if got.err then After.closed else
+      match drainChunked cfg e (s.length + 2) st with
       | none => After.closed
       | some rest => if st.chunkEOF then After.resync rest else After.either rest
     .ok ({ head := hd, got, streamed := true }, after)
